@@ -1,4 +1,18 @@
 import QuinnModel.Drv.Wire
+import QuinnModel.Drv.Dgram
+import QuinnModel.Drv.Mtud
+import QuinnModel.Drv.Cindex
+import QuinnModel.Drv.Ack
+import QuinnModel.Drv.C12
+import QuinnModel.Drv.C14
+import QuinnModel.Drv.Header
+import QuinnModel.Drv.Tparams
+import QuinnModel.Drv.Frame
+import QuinnModel.Drv.PendingAcks
+import QuinnModel.Drv.PathResponses
+import QuinnModel.Drv.AckFrequency
+import QuinnModel.Drv.CidState
+import QuinnModel.Drv.CidQueue
 import QuinnModel.Drv.Conn
 import QuinnModel.Drv.Sbuf
 import QuinnModel.Drv.Asm
@@ -10,6 +24,19 @@ open QM
 
 structure St where
   dedup : Dedup.Dedup := Dedup.init
+  dgram : Drv.DgSt := {}
+  mtud : Mtud.State := Drv.mtudInit
+  cindex : Drv.CState := {}
+  cc : Option Controllers.Ctl := none
+  sentpk : InFlight.State := {}
+  tokencache : TokenCache.State Bytes := TokenCache.default
+  bloomlog : BloomLog.State := BloomLog.init 64
+  token : Drv.C14.TokSt := {}
+  pendingacks : Drv.PendingAcksSt := {}
+  pathresp : PathResponses.State := []
+  ackfreq : Drv.AckFreqSt := Drv.ackfreqInit
+  cidstate : CidState.State := Drv.cidstateInit
+  cidq : CidQueue.Handler := Drv.cidqInit
   sbuf : SendBuffer.SendBuffer := {}
   asm : Assembler.Asm := {}
 
@@ -24,6 +51,23 @@ def step (s : St) (line : String) : St × String :=
   | "dedup" :: r => let (d, o) := Drv.dedup s.dedup r; ({ s with dedup := d }, o)
   | "sbuf" :: r => let (d, o) := Drv.sbuf s.sbuf r; ({ s with sbuf := d }, o)
   | "asm" :: r => let (d, o) := Drv.asm s.asm r; ({ s with asm := d }, o)
+  | "cidq" :: r => let (d, o) := Drv.cidq s.cidq r; ({ s with cidq := d }, o)
+  | "cidstate" :: r => let (d, o) := Drv.cidstate s.cidstate r; ({ s with cidstate := d }, o)
+  | "ackfreq" :: r => let (d, o) := Drv.ackfreq s.ackfreq r; ({ s with ackfreq := d }, o)
+  | "ackscan" :: r => (s, Drv.ackscan r)
+  | "pathresp" :: r => let (d, o) := Drv.pathresp s.pathresp r; ({ s with pathresp := d }, o)
+  | "pendingacks" :: r => let (d, o) := Drv.pendingacks s.pendingacks r; ({ s with pendingacks := d }, o)
+  | "frame" :: r => (s, Drv.frame r)
+  | "tparams" :: r => (s, Drv.tparams r)
+  | "header" :: r => (s, Drv.header r)
+  | "token" :: r => let (d, o) := Drv.C14.token s.token r; ({ s with token := d }, o)
+  | "bloomlog" :: r => let (d, o) := Drv.C14.bloomlog s.bloomlog r; ({ s with bloomlog := d }, o)
+  | "tokencache" :: r => let (d, o) := Drv.C14.tokencache s.tokencache r; ({ s with tokencache := d }, o)
+  | "cc" :: r => let (d, o) := Drv.cc s.cc r; ({ s with cc := d }, o)
+  | "sentpk" :: r => let (d, o) := Drv.sentpk s.sentpk r; ({ s with sentpk := d }, o)
+  | "cindex" :: r => let (d, o) := Drv.cindex s.cindex r; ({ s with cindex := d }, o)
+  | "dgram" :: r => let (d, o) := Drv.dgram s.dgram r; ({ s with dgram := d }, o)
+  | "mtud" :: r => let (d, o) := Drv.mtud s.mtud r; ({ s with mtud := d }, o)
   | _ => (s, "bad-op")
 
 partial def loop (h : IO.FS.Stream) (out : IO.FS.Stream) (s : St) : IO Unit := do
